@@ -47,6 +47,10 @@ def gen_cases(tier, seed):
             cases[-1]["init_remove"] = [0] if i % 16 == 2 else [0, 2]
         elif i % 8 == 6:
             cases[-1]["init_appends"] = int(rng.integers(1, 4))     # the existing dataset is itself the result of earlier appends
+        if i % 3 == 1:
+            # the append goes through a handle the caller keeps (ParquetFile.write_row_groups); after a failed append the same handle
+            # appends another frame without faults: a fresh open must then see the old rows and that frame, nothing of the failed one
+            cases[-1]["via_handle"] = True
     return cases
 
 
@@ -69,8 +73,14 @@ def _rids(path):
     return df
 
 
-def _append(path, new, case, seam):
+def _append(path, new, case, seam, box=None):
     import fastparquet
+    if case.get("via_handle"):
+        pf = fastparquet.ParquetFile(path)
+        if box is not None:
+            box.append(pf)
+        pf.write_row_groups(new, row_group_offsets=case["new_rgo"] or None, open_with=seam.open_with, mkdirs=seam.mkdirs)
+        return
     kw = {"file_scheme": "hive", "append": True, "open_with": seam.open_with, "mkdirs": seam.mkdirs}
     if case["nparts"]:
         kw["partition_on"] = ["p0", "p1"][:case["nparts"]]
@@ -152,7 +162,7 @@ def run_case(case):
         shape = (case["nparts"], case["new_partitions"], bool(case["new_rgo"]))
         kinds_at = {i: kind for i, kind, p in seam.calls}
 
-        def judge(k, mode, reported_failure, events):
+        def judge(k, mode, reported_failure, events, box=None):
             ctx = {"k": k, "K": K, "k_meta": k_meta, "call_kind": kinds_at.get(k), "mode": mode, "nparts": case["nparts"],
                    "new_partitions": case["new_partitions"], "reported_failure": reported_failure}
             # clause 3: never open an existing data file for writing (any k)
@@ -191,6 +201,24 @@ def run_case(case):
                     if sorted(got["rid"].tolist()) != exp_new_rids:
                         res["failures"].append({"kind": "append_returned_normally_but_content_is_not_new", "expected": len(exp_new_rids), "got": len(got), **ctx})
                 counters["content_checks"] = counters.get("content_checks", 0) + 1
+                if box and reported_failure:
+                    # the kept handle appends again, fault-free
+                    new2 = _frame(np.random.default_rng([case["seed"], 3, k]), 2 * 10 ** 6, 5, case["nparts"], case["new_partitions"])
+                    try:
+                        box[0].write_row_groups(new2, row_group_offsets=None)
+                    except Exception as e:
+                        counters["kept_handle_followup_raised"] = counters.get("kept_handle_followup_raised", 0) + 1
+                    else:
+                        counters["kept_handle_followups"] = counters.get("kept_handle_followups", 0) + 1
+                        try:
+                            got2 = sorted(_rids(work)["rid"].tolist())
+                        except Exception as e:
+                            res["failures"].append({"kind": "dataset_unreadable_after_append_following_a_failed_one", **ctx, **C.exc_shape(e)})
+                        else:
+                            want2 = sorted(old["rid"].tolist() + new2["rid"].tolist())
+                            if got2 != want2:
+                                res["failures"].append({"kind": "append_after_failed_append_returned_normally_but_content_is_not_new", "expected": len(want2), "got": len(got2),
+                                                        "rows_of_the_failed_append_present": len(set(got2) & set(new["rid"].tolist())), **ctx})
             feats.add(str((shape, kinds_at.get(k), k < k_meta, mode)))
 
         judge.tsnap = fsmon.snapshot(tmpl)
@@ -198,9 +226,10 @@ def run_case(case):
             shutil.copytree(tmpl, work)
             seam = fsmon.FaultSeam(fail_at=k, mode="raise")
             reported = False
+            box = []
             with fsmon.Audit(work) as aud:
                 try:
-                    _append(work, new, case, seam)
+                    _append(work, new, case, seam, box)
                 except Exception:
                     reported = True
                 except BaseException as e:
@@ -211,7 +240,7 @@ def run_case(case):
             else:
                 counters["faults_fired_raise"] = counters.get("faults_fired_raise", 0) + 1
                 counters["fired:" + seam.fired[1]] = counters.get("fired:" + seam.fired[1], 0) + 1
-            judge(k, "raise", reported, aud.events)
+            judge(k, "raise", reported, aud.events, box)
             shutil.rmtree(work)
         if case.get("kill"):
             env = dict(os.environ)
@@ -250,7 +279,7 @@ def coverage_extra(agg):
 
 def required(tier):
     return {"faults_fired_raise": 300, "content_checks": 200, "faults_fired_kill": 30, "fired:open_w": 20, "fired:write": 100, "fired:close": 20,
-            "fired:mkdirs": 1, "scenarios_with_ge_11_existing_parts": 3, "scenarios_with_removed_row_groups": 2}
+            "fired:mkdirs": 1, "scenarios_with_ge_11_existing_parts": 3, "scenarios_with_removed_row_groups": 2, "kept_handle_followups": 40}
 
 
 if __name__ == "__main__":
